@@ -129,6 +129,8 @@ def cmpVals (op : CmpOp) (a b : Val) : R Val :=
   | .ne, .str _, .int _ | .ne, .int _, .str _ | .ne, .none, .bool _ | .ne, .bool _, .none => .ok (.bool true)
   | .isIn, .str x, .list ys => .ok (.bool (ys.any fun y => match y with | .str t => t == x | _ => false))
   | .notIn, .str x, .list ys => .ok (.bool (!(ys.any fun y => match y with | .str t => t == x | _ => false)))
+  | .isIn, .none, .obj _ => .ok (.bool false)      -- `None in d` for a dict with string keys
+  | .notIn, .none, .obj _ => .ok (.bool true)
   | .isIn, .str x, .obj fs => .ok (.bool (fs.any fun p => p.1 == x))
   | .notIn, .str x, .obj fs => .ok (.bool (!(fs.any fun p => p.1 == x)))
   | _, _, _ => .stuck "comparison"
